@@ -55,7 +55,7 @@ RULE = ("streams bad*(0-3) + one valid request on one connection, two recv chunk
         "decoder entered the header) and the frame is not a valid request (reference parser or "
         "library decoder refuse it); distinct = distinct (mutation kind, operation, version)")
 ASSUMPTIONS = [
-    "the session is driven through KmipSession._handle_message_loop exactly as run() does (loop "
+    "the session is driven through KmipSession.run() (handshake, message loop, shutdown) over a scripted connection; what run() logs with an exception attached counts as an exception that left the message loop (formerly: a harness loop "
     "until ConnectionClosed, other exceptions recorded and the loop continued) over a fake "
     "connection; recv returns b'' at end of data",
     "a frame whose only irregularity is bytes after the Batch Count many batch items, or a Batch "
@@ -590,6 +590,11 @@ class Obs(object):
         return -1
 
 
+class _BudgetExceeded(BaseException):
+    """Raised by the scripted connection when the session keeps calling recv far beyond what the
+    stream needs (not an Exception: run() must not swallow it)."""
+
+
 class SpyConn(H.FakeConnection):
     def __init__(self, data, chunks, cert, obs, server, copy_at=None, copy_to=None):
         H.FakeConnection.__init__(self, data, chunks, cert)
@@ -601,6 +606,8 @@ class SpyConn(H.FakeConnection):
     def recv(self, n):
         o = self.obs
         p = self.pos
+        if getattr(self, "budget", None) is not None and self.recv_calls > self.budget:
+            raise _BudgetExceeded()
         if p not in o.dumps and (p in o.starts or p >= len(self.data)):
             o.dumps[p] = _file_bytes(self.server.db)
             if p == self.copy_at and self.copy_to and not o.copied:
@@ -675,18 +682,31 @@ def drive(server, stream, chunks, copy_at=None, copy_to=None):
 
     engine.process_request = spy
     _CUR[0] = (obs, conn)
-    limit = len(frames) + 3
+    # KmipSession.run() itself is executed (handshake, the loop, shutdown): what it logs with an
+    # exception attached is an exception that left _handle_message_loop; a recv budget far above
+    # what the stream needs ends a loop that never sees the end of the stream
+    conn.budget = 8 * (len(frames) + 4) + 2 * len(stream) + 64
+
+    class _Catch(logging.Handler):
+        def emit(self, record):
+            # only what run() itself logs: handled errors are logged with their traceback too
+            if record.funcName == "run" and record.exc_info and record.exc_info[1] is not None:
+                obs.errors.setdefault(obs.frame_at_end(conn.pos), []).append(record.exc_info[1])
+                obs.loops += 1
+
+    lg = logging.getLogger("kmip.server.session.verif")
+    catch = _Catch()
+    lg.addHandler(catch)
+    conn.shut = False
     try:
-        while obs.loops < limit:
-            obs.loops += 1
-            try:
-                sess._handle_message_loop()
-            except kexc.ConnectionClosed:
-                obs.closed = True
-                break
-            except Exception as e:           # run() logs these and keeps looping
-                obs.errors.setdefault(obs.frame_at_end(conn.pos), []).append(e)
+        try:
+            sess.run()
+            obs.closed = True
+        except _BudgetExceeded:
+            obs.closed = False
+            obs.loops = max(obs.loops, len(frames) + 3)
     finally:
+        lg.removeHandler(catch)
         _CUR[0] = None
         try:
             del engine.process_request
@@ -1288,7 +1308,7 @@ def case_strategy():
 
     @st.composite
     def case(draw):
-        nbad = draw(st.sampled_from([0, 1, 1, 1, 1, 2, 2, 3]))
+        nbad = draw(st.sampled_from([0, 1, 1, 1, 1, 2, 2, 3, 5, 6, 9, 12]))
         return {"bad": [draw(frame()) for _ in range(nbad)],
                 "good": draw(request(final=True)),
                 "mrs": draw(st.sampled_from([None, None, None] + MRS_RELS)),
